@@ -16,7 +16,7 @@ HERE = os.path.dirname(os.path.abspath(__file__))
 CASES = {'quick': 4000, 'thorough': 100000}
 PARALLEL = False          # to_wire needs the cookie texts of the implementation run, which is memoised in-process
 ALLOWED_AXIOMS = ()
-RULE = ('SignedCookieSessionFactory called with option values AS GIVEN (int / bool / float / digit string / None / refused '
+RULE = ('SignedCookieSessionFactory CALLED as a caller may (leading arguments positional in the documented order / keywords / omitted) with option values AS GIVEN (int / bool / float / digit string / None / refused '
         'strings for timeout, reissue_time, max_age; any truth value for set_on_exception; salt None / empty / latin-1 / not); '
         'chains of 1-6 requests through the factory, each presenting the cookie last set / a tampered '
         'variant / none; 0-6 operations per request from the 23 public operations, optional arguments given / omitted / passed by keyword; clock advanced by 0,1,reissue+-1,'
@@ -50,8 +50,9 @@ TRUSTED = [
     'coq/Model/C10_base.v primitives: dict get/set/pop/... on insertion-ordered association lists, Python == on JSON '
     'values, unpack3, float_of, loads (SignedSerializer), signed_dumps, append_at / py_in (aliased flash list), '
     'register_cb = identity (the callback registration is represented by the dirty flag) -- validated by correspondence',
-    'the class-body facts (which wrapper each method name is bound to; the cookie-attribute class attributes compared '
-    'literally); the factory-layer translator harness/c10/translate_factory.py with its primitive table (padding + '
+    'the class-body facts (which wrapper each method name is bound to); the documented signature / defaults of '
+    'SignedCookieSessionFactory (doc_sig, doc_defaults in C10_base.v, DOC_ORDER in prop.py); the schema translators of '
+    'translate_factory.py for request.py / router.py (queue = list, popleft = head, reify = once per request); the factory-layer translator harness/c10/translate_factory.py with its primitive table (padding + '
     'urlsafe_b64decode = unb64, urlsafe_b64encode().rstrip = b64, SignedSerializer(secret, salt, hashalg, JSON) = SSigned, '
     'int() = int_of, truth value = py_truth) and WebOb\'s key derivation salted_key (validated by correspondence: the model '
     'derives the key itself, a wrong key shows as a missing digest)',
@@ -62,12 +63,15 @@ TRUSTED = [
 TECHNIQUE = ('Coq proof (induction over operation lists and request chains) about a Gallina program whose control flow is '
              'translated from src/pyramid/session.py on every run (harness/c10/translate.py, translate_factory.py), proved equal to a hand-written '
              'reference model; wrapper table regenerated from the class body; extracted-program differential correspondence')
-LEVEL_TEXT = ('Machine-checked theorems (57, closed under the global context; C10_chain_refines_spec_canonical carries only the '
+LEVEL_TEXT = ('Machine-checked theorems (66, closed under the global context; C10_chain_refines_spec_canonical carries only the '
               'unforgeability premise, the older chain theorems are _partial: see ASSUMPTIONS).  The program regenerated from session.py on this '
               'run (manage_accessed/manage_changed, changed, invalidate, flash, pop_flash, peek_flash, new_csrf_token, '
               'get_csrf_token, __init__, _set_cookie; wrappers chosen by the regenerated class table; and the factory layer: '
               'SignedCookieSessionFactory, _CanonicalBase64Serializer.loads/dumps, the int() conversion of the options in the class '
-              'body) equals the reference model for all inputs; the serializer object the factory builds is the loads/dumps of the '
+              'body, the ORDER and DEFAULTS of its parameters, the cookie attributes it hands on; and the request / router plumbing: '
+              'add_response_callback, _process_response_callbacks, Request.session, Router.invoke_request) equals the reference model for all inputs; '
+              'however a call passes its arguments the factory built is the documented reading of the call (C10_factory_call_is_spec); whatever other '
+              'response callbacks the application registers, the session callback runs once iff the session is dirty (C10_router_invokes_callbacks); the serializer object the factory builds is the loads/dumps of the '
               'session theorems, the options the class carries are the documented conversion of the arguments (None stays None, '
               '0/False stay 0, refused values make the factory call raise), end to end from the factory arguments to the store '
               'semantics (C10_factory_chain_refines_spec).  The session program equals the reference '
@@ -78,7 +82,7 @@ LEVEL_TEXT = ('Machine-checked theorems (57, closed under the global context; C1
               '4064 without truncation), for every mac/ser/deser/b64 with the stated round trips -- in particular for the real '
               'JSON + urlsafe base64 wire format, whose round trips are proved.  The extracted regenerated program is run '
               'against SignedCookieSessionFactory and a real Router (exact cookie text).')
-LEVEL_NOTE = ('Trusted: Coq kernel; the translator\'s primitive table and the primitives of C10_base.v (validated by '
+LEVEL_NOTE = ('Trusted: Coq kernel; the translators\' primitive tables (translate.py, translate_factory.py) and the primitives of C10_base.v (validated by '
               'correspondence); class-body facts; Python harness; hmac as an abstract function of fixed length. Anything outside '
               'the translator\'s subset/table is a broken tie (fallback text emitted), never a silent success. Print Assumptions '
               'closed, ALLOWED_AXIOMS empty.')
@@ -106,6 +110,25 @@ def facts(src):
     gen += '\n' + fgen
     problems += fproblems
     summary.update(fsummary)
+    # the request plumbing the cookie passes through (pyramid/request.py)
+    try:
+        with open(os.path.join(src, 'pyramid/request.py')) as f:
+            rtext = f.read()
+    except OSError:
+        rtext = ''
+    pgen, pproblems, psummary = translate_factory.translate_plumbing(rtext)
+    gen += '\n' + pgen
+    problems += pproblems
+    summary.update(psummary)
+    try:
+        with open(os.path.join(src, 'pyramid/router.py')) as f:
+            rtext = f.read()
+    except OSError:
+        rtext = ''
+    rgen, rproblems, rsummary = translate_factory.translate_router(rtext)
+    gen += '\n' + rgen
+    problems += rproblems
+    summary.update(rsummary)
     vals['canonical_check'] = canonical
     summary['canonical_check'] = canonical
     _F.update(vals)
@@ -269,16 +292,46 @@ def _serializer(o, **over):
     return _impl['SS'](d['secret'], d['salt'], d['hashalg'])
 
 
+# the DOCUMENTED signature of SignedCookieSessionFactory (narr/api docs; coq/Model/C10_base.v doc_sig): positional
+# callers rely on this order
+DOC_ORDER = ['secret', 'cookie_name', 'max_age', 'path', 'domain', 'secure', 'httponly', 'samesite', 'set_on_exception',
+             'timeout', 'reissue_time', 'hashalg', 'salt', 'serializer']
+DOC_DEFAULTS = {'cookie_name': 'session', 'max_age': None, 'path': '/', 'domain': None, 'secure': False,
+                'httponly': False, 'samesite': 'Lax', 'set_on_exception': True, 'timeout': 1200, 'reissue_time': 0,
+                'hashalg': 'sha512', 'salt': 'pyramid.session.', 'serializer': None}
+CASE_KEY = {'set_on_exception': 'soe', 'reissue_time': 'reissue'}
+
+
+def call_args(o):
+    """(npos, [per documented parameter: ('given', value) | None]) -- how the case calls the factory: the first
+    `npos` arguments positionally (documented order; a value the case does not mention is written out as its
+    documented default), the others by keyword if the case mentions them, else not at all"""
+    npos = 1 if o.get('defaults') else int(o.get('npos', 1))
+    out = []
+    for d, name in enumerate(DOC_ORDER):
+        k = CASE_KEY.get(name, name)
+        if name == 'secret':
+            out.append(('given', o['secret']))
+        elif o.get('defaults'):
+            out.append(None)
+        elif name in ('timeout', 'reissue_time', 'set_on_exception', 'hashalg', 'salt'):
+            out.append(('given', o.get(k, DOC_DEFAULTS[name])))     # always passed (as before round 6)
+        elif k in o:
+            out.append(('given', o[k]))
+        elif d < npos:
+            out.append(('given', DOC_DEFAULTS[name]))
+        else:
+            out.append(None)
+    return npos, out
+
+
 def _factory(o):
-    # option values go in AS THE CASE GIVES THEM (int / bool / float / str / None): converting them is the code's job
-    kw = dict(timeout=o.get('timeout', 1200), reissue_time=o.get('reissue', 0), set_on_exception=o.get('soe', True),
-              hashalg=o.get('hashalg', 'sha512'), salt=o.get('salt', 'pyramid.session.'))
-    for k in ('cookie_name', 'max_age', 'path', 'domain', 'secure', 'httponly', 'samesite'):
-        if k in o:
-            kw[k] = o[k]
-    if o.get('defaults'):
-        kw = {}
-    return _impl['ps'].SignedCookieSessionFactory(o['secret'], **kw)
+    # option values go in AS THE CASE GIVES THEM (int / bool / float / str / None): converting them is the code's job;
+    # 'npos': n passes the first n arguments POSITIONALLY in the documented order
+    npos, args = call_args(o)
+    pos = [a[1] for a in args[:npos]]
+    kw = {DOC_ORDER[d]: a[1] for d, a in enumerate(args) if d >= npos and a is not None}
+    return _impl['ps'].SignedCookieSessionFactory(*pos, **kw)
 
 
 # sources that are an alteration of the cookie most recently set (edits of its text, or its payload under another
@@ -481,6 +534,11 @@ class _ViewFailed(Exception):
     pass
 
 
+def _other_cb(request, response):
+    """a response callback of the application that has nothing to do with the session"""
+    response.headers['X-Other'] = str(int(response.headers.get('X-Other', '0')) + 1)
+
+
 def _make_app(factory, how=True):
     """a real Router: session factory configured, one view that drives the session, one exception view"""
     from pyramid.config import Configurator
@@ -494,9 +552,14 @@ def _make_app(factory, how=True):
         except Exception as e:
             b['ctor'] = type(e).__name__
             raise
+        nb, na = b['r'].get('cbs', [0, 0])
+        for _ in range(nb):
+            request.add_response_callback(_other_cb)
         b['s0'] = _snap(sess)
         b['rs'] = _run_ops(sess, b['r'], b['clock'], b['osx'])
         b['s1'] = _snap(sess)
+        for _ in range(na):
+            request.add_response_callback(_other_cb)
         _note_payload(sess, b['payloads'])
         if b['r'].get('exc'):
             raise _ViewFailed()
@@ -538,7 +601,7 @@ def _through_router(app_box, name, text, r, clock, osx, payloads, o, attr_bad):
 ATTR_KEYS = ('max_age', 'path', 'domain', 'secure', 'httponly', 'samesite')
 
 
-_CUR = {'max_ages': []}      # Max-Age attributes seen during the chain being run
+_CUR = {'max_ages': [], 'attrs': []}      # Max-Age attributes seen during the chain being run
 
 
 def _check_attrs(o, header, name):
@@ -550,6 +613,8 @@ def _check_attrs(o, header, name):
         got[kv[0].lower()] = kv[1] if len(kv) == 2 else True
     d = {} if o.get('defaults') else o
     want = {'path': d.get('path', '/'), 'samesite': d.get('samesite', 'Lax')}
+    _CUR['attrs'].append([name, got.get('path'), got.get('domain'), bool(got.get('secure')), bool(got.get('httponly')),
+                          got.get('samesite')])
     if True:
         seen = _CUR['max_ages']
         try:
@@ -592,6 +657,7 @@ def _chain(case):
     ps.time, ps.os = clock, osx
     obs, texts, attr_bad, payloads = [], [], [], []
     _CUR['max_ages'] = max_ages = []
+    _CUR['attrs'] = attrs_seen = []
     try:
         try:
             factory = _factory(o)
@@ -631,9 +697,14 @@ def _chain(case):
             except Exception as e:
                 obs.append([1, type(e).__name__])
                 continue
+            nb, na = r.get('cbs', [0, 0])
+            for _ in range(nb):
+                req.add_response_callback(_other_cb)
             s0 = _snap(sess)
             rs = _run_ops(sess, r, clock, osx)
             s1 = _snap(sess)
+            for _ in range(na):
+                req.add_response_callback(_other_cb)
             _note_payload(sess, payloads)
             if r.get('exc'):
                 req.exception = RuntimeError('view failed')
@@ -653,7 +724,8 @@ def _chain(case):
     finally:
         ps.time, ps.os = old_time, old_os
     ss = _serializer(o)
-    out = {'obs': [obs, attr_bad, sorted(set(max_ages), key=repr)], 'texts': texts, 'payloads': payloads, 'key': ss.salted_secret, 'ds': ss.digest_size,
+    out = {'obs': [obs, attr_bad, sorted(set(max_ages), key=repr),
+                   [json.loads(x) for x in sorted({json.dumps(a) for a in attrs_seen})]], 'texts': texts, 'payloads': payloads, 'key': ss.salted_secret, 'ds': ss.digest_size,
            'alg': o.get('hashalg', 'sha512') if not o.get('defaults') else 'sha512'}
     if len(_memo) > 20000:
         _memo.clear()
@@ -701,10 +773,10 @@ def _oracle(key, alg, ds, texts, payloads=()):
 def to_wire(case):
     ch = _chain(case)
     o = case['opts']
-    salt = opt(o, 'salt')
-    # the factory's ARGUMENTS, unconverted: the model (regenerated factory layer) derives key and options itself
-    opts = [o['secret'], [] if salt is None else [salt], cfgv(opt(o, 'max_age')), cfgv(opt(o, 'timeout')),
-            cfgv(opt(o, 'reissue')), cfgv(opt(o, 'soe'))]
+    # the CALL of the factory, unconverted and unbound: the model (regenerated signature, defaults, factory layer)
+    # binds the arguments and derives key and options itself
+    npos, args = call_args(o)
+    opts = [npos, [[] if a is None else [cfgv(a[1])] for a in args]]
     chain_obs = ch['obs'][0] if ch['obs'] != ['factory-raises'] else []
     reqs = []
     # presented texts in order (only needed for the literal, i.e. not-last, sources)
@@ -720,7 +792,8 @@ def to_wire(case):
             s = [text, 1]                    # an ALTERED cookie: the text differs from the one last set
         else:
             s = [text]
-        reqs.append([s, ticks(r['t']), [[op_wire(op), ticks(op['t'])] for op in r['ops']], 1 if r.get('exc') else 0])
+        reqs.append([s, ticks(r['t']), [[op_wire(op), ticks(op['t'])] for op in r['ops']], 1 if r.get('exc') else 0]
+                    + list(r.get('cbs', [0, 0])))
         if ob[0] == 0 and ob[4][0] == 1:
             last = ob[4][1]
             history.append(last)
@@ -739,13 +812,27 @@ def from_wire(case, raw):
         return {'model': ['factory-raises'], 'spec': raw[1][0] if raw[1] else None}
     if raw == [2]:
         return {'model': None, 'spec': None}                     # an option string the model does not decide
-    if raw == [['bad']] or not isinstance(raw, list) or len(raw) != 3:
+    if raw == [['bad']] or not isinstance(raw, list) or len(raw) != 4:
         return {'model': ['MODEL-BAD', raw], 'spec': None}
-    model, spec, max_age = raw
+    model, spec, max_age, attrs = raw
     for ob in model:
         if ob == [2] or (ob[0] == 0 and any(r == [2] for r in ob[2])):
             return {'model': None, 'spec': None}        # outside the modelled domain: nothing is compared
-    return {'model': [model, [], max_age], 'spec': spec}
+    return {'model': [model, [], max_age, attrs], 'spec': spec}
+
+
+def _uncfgv(w):
+    if w == [] or w is None:
+        return None
+    return {0: lambda v: v, 1: bool, 2: lambda v: v / float(TICK), 3: lambda v: v}[w[0]](w[1])
+
+
+def _attrs_rendered(w):
+    """how WebOb renders the raw attribute values [name, path, domain, secure, httponly, samesite] of the model"""
+    if not w:
+        return None
+    nm, pa, dm, se, ho, ss = [_uncfgv(x) for x in w]
+    return [nm, pa, dm or None, bool(se), bool(ho), ss or None]
 
 
 def equiv(case, obs, model):
@@ -755,8 +842,11 @@ def equiv(case, obs, model):
         return True                   # outside the modelled domain (from_wire returned no model)
     if a == ['factory-raises'] or b == ['factory-raises']:
         return a == b
-    if len(b) != 3 or b[0] == 'MODEL-BAD':
+    if len(b) != 4 or b[0] == 'MODEL-BAD':
         return False
+    from harness.common.wire import canon
+    if any(canon(x) != canon(_attrs_rendered(b[3])) for x in a[3]):
+        return False          # Set-Cookie attributes differ from what the (regenerated) factory layer hands on
     if a[1] != b[1] or len(a[0]) != len(b[0]):
         return False
     want = b[2][0] if b[2] else 'absent'      # the Max-Age attribute every cookie must carry
@@ -892,6 +982,8 @@ def kinds(case, obs):
     if not o.get('defaults') and 'salt' in o:
         out.add('salt-%s' % ('none' if o['salt'] is None else 'empty' if o['salt'] == '' else 'default'
                              if o['salt'] == 'pyramid.session.' else 'custom'))
+    npos = 1 if o.get('defaults') else o.get('npos', 1)
+    out.add('call-keywords-only' if npos == 1 else 'call-positional-%s' % ('2..8' if npos < 9 else npos))
     if obs == ['factory-raises']:
         out.add('factory-raises')
         return sorted(out)
@@ -931,6 +1023,9 @@ def kinds(case, obs):
             out.add('dirty-but-suppressed-by-exception')
         if r.get('exc'):
             out.add('exc')
+        if r.get('cbs'):
+            out.add('other-callbacks-%s' % ('before-and-after' if r['cbs'][0] and r['cbs'][1] else
+                                            'before' if r['cbs'][0] else 'after' if r['cbs'][1] else 'none'))
         for op, x in zip(r['ops'], rs):
             out.add('op-' + op['op'])
             if op.get('how'):
